@@ -105,15 +105,38 @@ func c17Construct(c *ctx) {
 	if fn := c.mustFunc(rule, "crypto", "isOnCurve"); fn != nil {
 		facts, _ := acceptFacts(fn, 0, true, 0)
 		ok := core.HasNilFact(facts, paramIs(fn, 1), false) && core.HasNilFact(facts, paramIs(fn, 2), false)
+		// every return is `false` or the curve's own verdict on exactly (x, y): no other way to say yes
 		delegated := false
+		other := ""
 		for _, ret := range core.Returns(fn) {
-			if call, isC := core.Strip(ret.Results[0]).(*ssa.Call); isC && call.Call.IsInvoke() && call.Call.Method.Name() == "IsOnCurve" {
+			res := core.Strip(ret.Results[0])
+			if v, isK := core.ConstBool(res); isK && !v {
+				continue
+			}
+			good := false
+			if call, isC := res.(*ssa.Call); isC && call.Call.IsInvoke() && call.Call.Method.Name() == "IsOnCurve" {
 				if core.TermOf(call.Call.Value).Key() == paramTerm(fn, 0).Key() && core.TermOf(call.Call.Args[0]).Key() == paramTerm(fn, 1).Key() && core.TermOf(call.Call.Args[1]).Key() == paramTerm(fn, 2).Key() {
-					delegated = true
+					good = true
 				}
 			}
+			if v, isK := core.ConstBool(res); isK && v {
+				// `if !c.IsOnCurve(x, y) { return false }; return true`
+				for _, f := range core.TFactsAt(ret.Block(), 0) {
+					if f.Kind == core.FCall && f.Bool && f.Call.Call.IsInvoke() && f.Call.Call.Method.Name() == "IsOnCurve" {
+						call := f.Call
+						if core.TermOf(call.Call.Value).Key() == paramTerm(fn, 0).Key() && core.TermOf(call.Call.Args[0]).Key() == paramTerm(fn, 1).Key() && core.TermOf(call.Call.Args[1]).Key() == paramTerm(fn, 2).Key() {
+							good = true
+						}
+					}
+				}
+			}
+			if good {
+				delegated = true
+			} else {
+				other = "; the return at " + c.pos(ret) + " answers " + descr(res) + " without asking the curve: a coordinate pair that is not on the curve (for instance (0,0)) passes every door"
+			}
 		}
-		c.r.Check(ok && delegated, rule, fkey(rule, fn, "delegates-to-curve"), c.fpos(fn), "isOnCurve rejects nil coordinates and returns curve.IsOnCurve(x, y)", "isOnCurve does not return the curve's own IsOnCurve(x, y) for non-nil coordinates")
+		c.r.Check(ok && delegated && other == "", rule, fkey(rule, fn, "delegates-to-curve"), c.fpos(fn), "isOnCurve rejects nil coordinates and every other return is curve.IsOnCurve(x, y)", "isOnCurve does not return the curve's own IsOnCurve(x, y) for non-nil coordinates"+other)
 	}
 	for _, name := range []string{"GobDecode", "UnmarshalJSON"} {
 		fn := c.mustMethod(rule, "crypto", "ECPoint", name)
@@ -173,14 +196,24 @@ func c17Construct(c *ctx) {
 	if fn := c.mustMethod(rule, "crypto", "ECPoint", "IsOnCurve"); fn != nil {
 		ok := false
 		for _, ret := range core.Returns(fn) {
-			if call, isC := core.IsCallTo(core.Strip(ret.Results[0]), "~/crypto.isOnCurve"); isC {
+			res := core.Strip(ret.Results[0])
+			if v, isK := core.ConstBool(res); isK && !v {
+				continue
+			}
+			good := false
+			if call, isC := core.IsCallTo(res, "~/crypto.isOnCurve"); isC {
 				a := call.Call.Args
 				r0 := paramTerm(fn, 0)
 				t1, t2 := core.TermOf(a[1]), core.TermOf(a[2])
 				if core.IsFieldOf(core.TermOf(a[0]), r0, "curve") && t1.Op == "[]" && t2.Op == "[]" && constIs(t1.Args[1], 0) && constIs(t2.Args[1], 1) {
-					ok = true
+					good = true
 				}
 			}
+			if !good {
+				ok = false
+				break
+			}
+			ok = true
 		}
 		c.r.Check(ok, rule, fkey(rule, fn, "checks-own-fields"), c.fpos(fn), "IsOnCurve() = isOnCurve(p.curve, p.coords[0], p.coords[1])", "ECPoint.IsOnCurve does not test the point's own curve and coordinates")
 	}
